@@ -225,7 +225,9 @@ def coroutine(
                     future_set_result_unless_cancelled(
                         future, _value_from_stopiteration(e)
                     )
-                except Exception:
+                except (Exception, asyncio.CancelledError):
+                    # CancelledError is a BaseException; like any other
+                    # exception it belongs in the returned future.
                     future_set_exc_info(future, sys.exc_info())
                 else:
                     # Provide strong references to Runner objects as long
@@ -781,11 +783,17 @@ class Runner:
                 try:
                     try:
                         value = future.result()
-                    except Exception as e:
+                    except (Exception, asyncio.CancelledError) as e:
                         # Save the exception for later. It's important that
                         # gen.throw() not be called inside this try/except block
                         # because that makes sys.exc_info behave unexpectedly.
-                        exc: Exception | None = e
+                        # A cancelled future raises CancelledError, which is a
+                        # BaseException and must be named explicitly: it is
+                        # thrown into the generator like any other failure
+                        # (as asyncio does for a native coroutine) instead of
+                        # escaping from run() and leaving the coroutine
+                        # pending forever.
+                        exc: BaseException | None = e
                     else:
                         exc = None
                     finally:
@@ -809,7 +817,7 @@ class Runner:
                     )
                     self.result_future = None  # type: ignore
                     return
-                except Exception:
+                except (Exception, asyncio.CancelledError):
                     self.finished = True
                     self.future = _null_future
                     future_set_exc_info(self.result_future, sys.exc_info())
